@@ -467,6 +467,11 @@ def discharge(ob, axioms, timeout_ms, contract, want_models=True):
         if v == 'unsat':
             r = z3.unsat
             ob.backend = 'z3+split'
+    if r == z3.unknown and timeout_ms > 15000:
+        # a second, longer z3 attempt before the refutation portfolio: under load (16 workers) a query that needs
+        # 2-3 s unloaded can miss the short budget; true obligations should not pay for the refuters
+        s = mk(15000)
+        r = s.check()
     if r == z3.unknown:
         v = _cvc5(s, min(timeout_ms, 8000))
         if v == 'unsat':
